@@ -97,29 +97,59 @@ Proof.
   - intros H; inversion H; subst; cbn [qlocal]; auto.
 Qed.
 
+Lemma rls_desc' l t l' : remove_last_stealable l = Some (t, l') -> desc l -> desc l'.
+Proof. apply rls_desc. Qed.
+
 Lemma wstep_sorted fixed e s : sorted_inv e -> sorted_inv (wstep fixed e s).
 Proof.
-  intros [Hq Hg]. destruct s as [t|w|w|w v|w|w]; cbn [wstep]; try (split; assumption).
-  - destruct (worker_free e w); [|split; assumption].
+  intros [Hq Hg]. destruct s as [t| |w|w|w|w v|w v|w v|w|w]; cbn [wstep]; try (split; assumption).
+  - (* PopLocal *)
+    destruct (worker_free e w); [|split; assumption].
     destruct (nth_error (eqs e) w) as [q|] eqn:Hn; [|split; assumption].
     destruct (pop_local fixed q) as [[t|] q'] eqn:Hp; [|split; assumption].
     split; cbn [set_run set_q eqs eglob]; [|exact Hg].
     apply (Forall_set_nth (fun q => desc (qlocal q))); [exact Hq|]. eapply pop_local_desc; [exact Hp|].
     exact (Forall_nth_error (fun q => desc (qlocal q)) _ _ _ Hq Hn).
-  - destruct (worker_free e w); [|split; assumption].
+  - (* PopOwnSteal *)
+    destruct (fixed && worker_free e w); [|split; assumption].
+    destruct (nth_error (eqs e) w) as [q|] eqn:Hn; [|split; assumption].
+    destruct (qsteal q) as [|t r]; [split; assumption|].
+    split; cbn [set_run set_q eqs eglob]; [|exact Hg].
+    apply (Forall_set_nth (fun q => desc (qlocal q))); [exact Hq|]. cbn [qlocal].
+    exact (Forall_nth_error (fun q => desc (qlocal q)) _ _ _ Hq Hn).
+  - (* PopGlobal *)
+    destruct (worker_free e w); [|split; assumption].
     destruct (eglob e) as [|t r] eqn:Eg; [split; [assumption|rewrite Eg; exact Hg]|].
     split; cbn [set_run eqs eglob]; [exact Hq|]. destruct Hg as [_ Hr]. exact Hr.
-  - destruct (worker_free e w && negb (Nat.eqb w v)); [|split; assumption].
+  - (* StealFrom *)
+    destruct (worker_free e w && negb (Nat.eqb w v)); [|split; assumption].
     destruct (nth_error (eqs e) v) as [q|] eqn:Hn; [|split; assumption].
     destruct (steal q) as [[t|] q'] eqn:Hp; [|split; assumption].
     split; cbn [set_run set_q eqs eglob]; [|exact Hg].
     apply (Forall_set_nth (fun q => desc (qlocal q))); [exact Hq|]. eapply steal_desc; [exact Hp|].
     exact (Forall_nth_error (fun q => desc (qlocal q)) _ _ _ Hq Hn).
-  - destruct (nth_error (eqs e) w) as [q|] eqn:Hn; [|split; assumption].
+  - (* StealQ *)
+    destruct (worker_free e w && negb (Nat.eqb w v)); [|split; assumption].
+    destruct (nth_error (eqs e) v) as [q|] eqn:Hn; [|split; assumption].
+    destruct (qsteal q) as [|t r]; [split; assumption|].
+    split; cbn [set_run set_q eqs eglob]; [|exact Hg].
+    apply (Forall_set_nth (fun q => desc (qlocal q))); [exact Hq|]. cbn [qlocal].
+    exact (Forall_nth_error (fun q => desc (qlocal q)) _ _ _ Hq Hn).
+  - (* StealL *)
+    destruct (worker_free e w && negb (Nat.eqb w v)); [|split; assumption].
+    destruct (nth_error (eqs e) v) as [q|] eqn:Hn; [|split; assumption].
+    destruct (1 <? nlen (qlocal q)); [|split; assumption].
+    destruct (remove_last_stealable (qlocal q)) as [[t l']|] eqn:Hr; [|split; assumption].
+    split; cbn [set_run set_q eqs eglob]; [|exact Hg].
+    apply (Forall_set_nth (fun q => desc (qlocal q))); [exact Hq|]. cbn [qlocal].
+    eapply rls_desc'; [exact Hr|]. exact (Forall_nth_error (fun q => desc (qlocal q)) _ _ _ Hq Hn).
+  - (* Balance *)
+    destruct (nth_error (eqs e) w) as [q|] eqn:Hn; [|split; assumption].
     split; cbn [set_q eqs eglob]; [|exact Hg].
     apply (Forall_set_nth (fun q => desc (qlocal q))); [exact Hq|]. apply balance_desc.
     exact (Forall_nth_error (fun q => desc (qlocal q)) _ _ _ Hq Hn).
-  - destruct (nth_error (erun e) w) as [[t|]|]; split; assumption.
+  - (* Finish *)
+    destruct (nth_error (erun e) w) as [[t|]|]; split; assumption.
 Qed.
 
 Lemma submit_sorted cap e t ok e' : submit cap e t = (ok, e') -> sorted_inv e -> sorted_inv e'.
@@ -144,7 +174,7 @@ Lemma run_sorted fixed cap steps : forall e acc e' acc',
 Proof.
   induction steps as [|s r IH]; intros e acc e' acc' H Hs; cbn [run] in H.
   - inversion H; subst. exact Hs.
-  - destruct s as [t|w|w|w v|w|w];
+  - destruct s as [t| |w|w|w|w v|w v|w v|w|w];
       try (eapply IH; [exact H|apply wstep_sorted; exact Hs]).
     destruct (submit cap e t) as [ok e1] eqn:E.
     eapply IH; [exact H|]. eapply submit_sorted; eassumption.
